@@ -793,9 +793,14 @@ class Unit:
             joined = "".join(outp)
             self.counts["macro:%s" % old_m] = self.counts.get("macro:%s" % old_m, 0) + hits
         body_subs = [x for x in subs if x[0] == "sub"]
+        padded = []
         for kind, old, new, cnt in body_subs:
-            if "\n" in old or "\n" in new:
-                raise ExtractError("multi-line rewrite not allowed: %s" % old)
+            # a rewrite may span lines of the source; the replacement is padded with the same number of line breaks so
+            # that every emitted line keeps its source line (diagnostics are mapped back through that table)
+            if new.count("\n") > old.count("\n"):
+                raise ExtractError("rewrite adds lines: %s" % old)
+            padded.append((kind, old, new + "\n" * (old.count("\n") - new.count("\n")), cnt))
+        body_subs = padded
         joined = self.apply_subs(joined, body_subs, "sub", "body of " + fid)
         newlines = joined.split("\n")
         assert len(newlines) == len(srcidx)
